@@ -10,7 +10,7 @@ def admins (st : State) : List Admin := st.clients.map admin
 
 /-- operations that neither touch the screen record nor any client's administrative fields -/
 def Op.plain : Op → Bool
-  | .setEncodings .. | .mark .. | .copy .. | .request .. | .update .. => true
+  | .setEncodings .. | .mark .. | .copy .. | .request .. | .update .. | .updateExtFail .. => true
   | _ => false
 
 theorem map_admin_modClient (st : State) (id : Nat) (f : Client → Client)
@@ -46,6 +46,8 @@ theorem plain_step (st : State) (op : Op) (hp : op.plain = true) :
   case request id incr x y w h =>
     exact ⟨rfl, map_admin_modClient _ _ _ (fun c => request_admin _ c _ _ _ _ _)⟩
   case update id =>
+    exact ⟨rfl, map_admin_modClient _ _ _ (fun c => updateClient_admin _ c)⟩
+  case updateExtFail id =>
     exact ⟨rfl, map_admin_modClient _ _ _ (fun c => updateClient_admin _ c)⟩
 
 /-! ### what the remaining operations do -/
@@ -169,7 +171,7 @@ theorem noTok_step (old : Nat) (st : State) (op : Op) (h : NoTok old st) (ho : o
   · obtain ⟨h1, h2⟩ := plain_step st op hp
     exact noTok_of_admins h (by rw [h1]) h2
   · cases op with
-    | setEncodings | mark | copy | request | update => simp [Op.plain] at hp
+    | setEncodings | mark | copy | request | update | updateExtFail => simp [Op.plain] at hp
     | newClient id =>
       simp only [step]
       split
@@ -204,6 +206,23 @@ theorem noTok_step (old : Nat) (st : State) (op : Op) (h : NoTok old st) (ho : o
       split
       · exact ⟨h.1, h.2⟩
       · exact h
+    | updateFail id =>
+      refine ⟨h.1, ?_⟩
+      intro a ha
+      simp only [admins, List.mem_map] at ha
+      obtain ⟨d, hd, rfl⟩ := ha
+      obtain ⟨c, hc, ⟨_, rfl⟩ | ⟨_, rfl⟩⟩ := mem_modClient hd
+      · have hc' := h.2 (admin c) (List.mem_map.mpr ⟨c, hc, rfl⟩)
+        rcases updateClientFail_admin st.scr c with he | he <;> rw [he] <;> exact hc'
+      · exact h.2 _ (List.mem_map.mpr ⟨_, hc, rfl⟩)
+    | drop id =>
+      refine ⟨h.1, ?_⟩
+      intro a ha
+      simp only [admins, List.mem_map] at ha
+      obtain ⟨d, hd, rfl⟩ := ha
+      obtain ⟨c, hc, ⟨_, rfl⟩ | ⟨_, rfl⟩⟩ := mem_modClient hd
+      · exact h.2 (admin c) (List.mem_map.mpr ⟨c, hc, rfl⟩)
+      · exact h.2 _ (List.mem_map.mpr ⟨_, hc, rfl⟩)
     | newFramebuffer w hh bpp tok => exact noTok_newFramebuffer old st w hh bpp tok ho
     | setDesktopSize id w hh ns hook =>
       simp only [step]
@@ -227,6 +246,33 @@ theorem noTok_step (old : Nat) (st : State) (op : Op) (h : NoTok old st) (ho : o
           intro c _
           exact afterHook_admin _ _ c
       · exact h
+
+/-- what an update touches: the framebuffer (soft cursor, encoders of an unscaled client) or the
+client's scaled version -/
+theorem updateClient_acc (st : State) (c : Client) (hmem : c ∈ st.clients) :
+    ∀ t ∈ (updateClient st.scr c).2.acc, t = st.scr.fb ∨ ∃ a ∈ admins st, t = a.ssrc := by
+  intro t ht
+  unfold updateClient at ht
+  split at ht
+  · unfold sendUpdate at ht
+    split at ht
+    · simp at ht
+    · split at ht
+      · simp at ht
+      · simp only [List.mem_append] at ht
+        rcases ht with ht | ht
+        · split at ht
+          · simp at ht
+          · left; simpa using ht
+        · split at ht
+          · simp at ht
+          · simp only [List.mem_singleton] at ht
+            subst ht
+            unfold readToken
+            split
+            · exact Or.inr ⟨admin c, List.mem_map.mpr ⟨c, hmem, rfl⟩, rfl⟩
+            · exact Or.inl rfl
+  · simp at ht
 
 /-- every token in the access log of one step is the current framebuffer or the rendering source of
 some client's scaled version -/
@@ -259,29 +305,23 @@ theorem step_acc (st : State) (op : Op) :
     simp only [step] at ht
     split at ht
     · rename_i c hc
-      obtain ⟨hmem, _⟩ := getClient_some hc
-      unfold updateClient at ht
-      split at ht
-      · unfold sendUpdate at ht
-        split at ht
-        · simp at ht
-        · split at ht
-          · simp at ht
-          · simp only [List.mem_append] at ht
-            rcases ht with ht | ht
-            · split at ht
-              · simp at ht
-              · left; simpa using ht
-            · split at ht
-              · simp at ht
-              · simp only [List.mem_singleton] at ht
-                subst ht
-                unfold readToken
-                split
-                · exact Or.inr ⟨admin c, List.mem_map.mpr ⟨c, hmem, rfl⟩, rfl⟩
-                · exact Or.inl rfl
-      · simp at ht
+      exact updateClient_acc st c (getClient_some hc).1 t ht
     · simp at ht
+  | updateFail id =>
+    simp only [step] at ht
+    split at ht
+    · rename_i c hc
+      exact updateClient_acc st c (getClient_some hc).1 t ht
+    · simp at ht
+  | updateExtFail id =>
+    simp only [step] at ht
+    split at ht
+    · rename_i c hc
+      split at ht
+      · simp at ht
+      · exact updateClient_acc st c (getClient_some hc).1 t ht
+    · simp at ht
+  | drop => simp [step] at ht
 
 /-! ### T4: the installed translation maps (current server format → client format) -/
 
@@ -323,7 +363,7 @@ theorem xlateOk_step (st : State) (op : Op) (h : XlateOk st) : XlateOk (step st 
   · obtain ⟨h1, h2⟩ := plain_step st op hp
     exact xlateOk_of_admins h (by rw [h1]) h2
   · cases op with
-    | setEncodings | mark | copy | request | update => simp [Op.plain] at hp
+    | setEncodings | mark | copy | request | update | updateExtFail => simp [Op.plain] at hp
     | newClient id =>
       simp only [step]
       split
@@ -356,6 +396,22 @@ theorem xlateOk_step (st : State) (op : Op) (h : XlateOk st) : XlateOk (step st 
       split
       · exact h
       · exact h
+    | updateFail id =>
+      intro a ha ho
+      simp only [admins, List.mem_map] at ha
+      obtain ⟨d, hd, rfl⟩ := ha
+      obtain ⟨c, hc, ⟨_, rfl⟩ | ⟨_, rfl⟩⟩ := mem_modClient hd
+      · rcases updateClientFail_admin st.scr c with he | he
+        · rw [he] at ho ⊢; exact h _ (List.mem_map.mpr ⟨c, hc, rfl⟩) ho
+        · rw [he] at ho; simp at ho
+      · exact h _ (List.mem_map.mpr ⟨_, hc, rfl⟩) ho
+    | drop id =>
+      intro a ha ho
+      simp only [admins, List.mem_map] at ha
+      obtain ⟨d, hd, rfl⟩ := ha
+      obtain ⟨c, hc, ⟨_, rfl⟩ | ⟨_, rfl⟩⟩ := mem_modClient hd
+      · rw [closeClient_admin] at ho; simp at ho
+      · exact h _ (List.mem_map.mpr ⟨_, hc, rfl⟩) ho
     | newFramebuffer w hh bpp tok => exact xlateOk_newFramebuffer st w hh bpp tok h
     | setDesktopSize id w hh ns hook =>
       simp only [step]
